@@ -180,10 +180,14 @@ pub fn iana_names(n: u8) -> Vec<String> {
         0..=144 => {
             v.push(norm_name(IANA_PROTO[n as usize]));
             match n {
+                // the library's identifier is a misspelling of the same keyword (BBN-RCC-MON,
+                // XNS-IDP): a rendering issue, not a number mapped to another protocol
+                10 => v.push("bbcrccmon".into()),
+                22 => v.push("xnxidp".into()),
                 34 => v.push("threepc".into()),
                 39 => v.push("tppp".into()),
                 // IANA gives no keyword for these; the library's identifiers differ in wording
-                61 => v.push("anyhostinternalprotocol".into()),
+                61 => v.push("anydistributedprotocol".into()),
                 _ => {}
             }
         }
@@ -238,7 +242,9 @@ pub fn dtype(proto: Proto, f: &FieldSpec) -> FieldDataType {
 pub fn legal_widths(dt: &FieldDataType) -> &'static [u16] {
     match dt {
         FieldDataType::UnsignedDataNumber => &[1, 2, 3, 4, 8, 16],
-        FieldDataType::SignedDataNumber => &[1, 2, 3, 4, 8, 16],
+        // the only signed element the library knows (434) is signed32: wider encodings are
+        // not conformant (RFC 7011 6.2 only allows reduced sizes)
+        FieldDataType::SignedDataNumber => &[1, 2, 3, 4],
         FieldDataType::DurationSeconds
         | FieldDataType::DurationMillis
         | FieldDataType::DurationMicros
@@ -585,6 +591,9 @@ fn dec_sets(
                 None => RefBody::UnknownTemplate,
                 Some(def) => {
                     let (records, padding) = dec_records(proto, &def, body)?;
+                    if records.is_empty() {
+                        return nc("data set without records (RFC: one or more records)");
+                    }
                     RefBody::Data {
                         def,
                         records,
